@@ -69,7 +69,7 @@ PROPS = {
     },
     "C18": {
         "title": "Text decoding does not depend on how input arrives",
-        "v_units": ["charreader"],
+        "v_units": ["charreader", "chanstream"],
         "k_groups": [],
         "replay": "charreader",
         "level": "proof",
